@@ -38,6 +38,8 @@ func runC12(c *Ctx) {
 		if i%4 == 1 {
 			storechk.AddLateStore(r, &h)
 		}
+		h.Ghost = r.Chance(30)
+		h.PruneAfterLoad = r.Chance(20)
 		c.Res.Cases++
 		rep := &caseReporter{c: c, caseID: fmt.Sprintf("m%d", i), replay: h}
 		storechk.RunC12On(&h, rep, i%16 == 7)
@@ -172,7 +174,7 @@ func runC14MS(c *Ctx) {
 			continue
 		}
 		h := storechk.GenMSHist(r, c.Quick())
-		h.Reload = nil
+		// h.Reload kept: RunC14 reopens the store at those points and keeps querying
 		c.Res.Cases++
 		rep := &caseReporter{c: c, caseID: fmt.Sprintf("q%d", i), replay: map[string]interface{}{"multistore": h, "qseed": r.U64()}}
 		qr := sim.NewRand(rep.replay.(map[string]interface{})["qseed"].(uint64))
@@ -348,9 +350,38 @@ func runC16(c *Ctx) {
 			c.Sample(p)
 		}
 	}
+	// tracing through the multistore's cache wrappers (one and two levels, IAVL and transient stores)
+	nt := 4000
+	if !c.Quick() {
+		nt = 16 * 4000
+	}
+	tm := sim.NewRand(c.Seed ^ hashStr("C16cmtrace"))
+	for i := 0; i < nt; i++ {
+		r := tm.Split(uint64(i))
+		if !c.Mine(i) {
+			continue
+		}
+		p := storechk.GenCMProg(r)
+		for ri := range p.Rounds { // address the transient store as well
+			for j := range p.Rounds[ri] {
+				if r.Chance(25) {
+					p.Rounds[ri][j].Store = p.NStores
+				}
+			}
+		}
+		c.Res.Cases++
+		storechk.RunCMTrace(&p, &caseReporter{c: c, caseID: fmt.Sprintf("t%d", i), replay: map[string]interface{}{"cmtrace": p}})
+	}
 }
 
 func replayC16(c *Ctx, raw json.RawMessage) {
+	var t struct {
+		Trace *storechk.CMProg `json:"cmtrace"`
+	}
+	if json.Unmarshal(raw, &t) == nil && t.Trace != nil {
+		storechk.RunCMTrace(t.Trace, &caseReporter{c: c, caseID: "replay", replay: raw})
+		return
+	}
 	var p storechk.WProg
 	if json.Unmarshal(raw, &p) == nil {
 		storechk.RunWProg(&p, &caseReporter{c: c, caseID: "replay", replay: raw})
